@@ -59,9 +59,8 @@ VALUE = "__current_value"
 KEYCALLS = {"pop", "popitem", "clear", "update", "setdefault"}
 
 # one symbol, one reason
-VALUE_REFRESH_EXCEPTIONS = {
-    "to_complex": "value-preserving dtype cast of every entry: the cached real arrays stay numerically equal",
-}
+# (F50: `to_complex` was listed here as "value-preserving"; the cached common data type is not preserved by it)
+VALUE_REFRESH_EXCEPTIONS: dict[str, str] = {}
 
 
 class View:
@@ -416,7 +415,32 @@ def check_coupdate(ctx: Ctx, view: View) -> None:
 # 2.3 guarded reads, single writer
 
 
+def check_normalized_current_value(ctx: Ctx, view: View) -> None:
+    """2.3-derived: the normalised current value is cached; it is derived from the current value AND from the bounds.
+    The current-value side is cleared by `__clear_dependent_data` (2.4); for the bounds side, the reader must not serve
+    the cache once the normalisation data have been invalidated: its recomputation test involves the flag (F49)."""
+    ds = view.ds
+    f = ds.methods["get_current_value"]
+    con = cname(DSF, "DesignSpace", "get_current_value")
+    names = {"__norm_current_value_array", mangle(ds.name, "__norm_current_value_array")}
+    fills = [s_ for s_ in stmts_of(f) if isinstance(s_, ast.Assign) and isinstance(s_.targets[0], ast.Attribute) and s_.targets[0].attr in names]
+    ctx.need(len(fills) >= 1, "get_current_value: the computation of the normalised current value was not found")
+    from gv.props.shared import branch_conditions as _bc
+
+    cfg = cfg_of(f)
+    flag_names = {FLAG, mangle(ds.name, FLAG)}
+    for fl in fills:
+        tests = [cfg.ast[t].test for t, v in _bc(cfg, cfg.node_of(fl)) if cfg.kind[t] == "test" and v]
+        guarded = [t_ for t_ in tests if any(isinstance(x, ast.Attribute) and x.attr in names for x in ast.walk(t_))]
+        ok = bool(guarded) and all(any(isinstance(x, ast.Attribute) and x.attr in flag_names for x in ast.walk(t_)) for t_ in guarded)
+        if not ok:
+            # the other design: every method that invalidates the normalisation data clears this cache as well
+            ok = all(any(isinstance(x, ast.Attribute) and x.attr in names and isinstance(x.ctx, ast.Store) for x in ast.walk(m)) or any(isinstance(c_, ast.Call) and (last_attr(c_) or "").endswith("__clear_dependent_data") for c_ in ast.walk(m)) for key, (c, m) in view.methods.items() if c == ds and any(isinstance(s_, ast.Assign) and isinstance(s_.targets[0], ast.Attribute) and s_.targets[0].attr in flag_names and const_value(s_.value, None) is False for s_ in stmts_of(m)))
+        ctx.ob("2.3-derived", con, ok, "the cached normalised current value is served although the bounds may have changed: the test under which it is recomputed must also hold when the normalisation data have been invalidated (`not self.__norm_data_is_computed`), or every method invalidating them must clear it", node=fl, stmt="normalised current value recomputed after an edit of the bounds")
+
+
 def check_norm_cache(ctx: Ctx, view: View) -> None:
+    check_normalized_current_value(ctx, view)
     ds = view.ds
     cache = set(NORM_CACHE)
     flag_names = {FLAG, mangle(ds.name, FLAG)}
